@@ -298,7 +298,8 @@ class PersistentReserveInReadFullStatus(PersistentReserveIn):
                 _str = data["iscsi_name"]
             # the lengths are those of the UTF-8 encoded name, not of the string
             _name = _str.encode("utf-8")
-            result = bytearray(4 + _pad4_len(_name))
+            # SPC: the ADDITIONAL LENGTH of an iSCSI TransportID is at least 20
+            result = bytearray(4 + max(20, _pad4_len(_name)))
             encode_dict(data, cls._transport_id_bits, result)
             result[2:4] = scsi_int_to_ba(len(result) - 4, 2)
             result[4 : len(_name) + 4] = _name
